@@ -695,6 +695,10 @@ def getattr_(I, obj, name, default=MISSING):
         from .containers import container_method
         r = container_method(I, obj, name)
         if r is MISSING:
+            py = tuple if isinstance(obj, tuple) else (dict if isinstance(obj, (IDict, SDict, RDict)) or (isinstance(obj, RSeq) and obj.kind == "dict")
+                                                       else (set if isinstance(obj, ISet) else list))
+            if hasattr(py, name) and default is MISSING:
+                raise OutOfReach("%s.%s is not modelled" % (py.__name__, name))      # CPython has it: not an error of the code under analysis
             return missing()
         return r
     if hasattr(obj, "pyvc_getattr"):
@@ -710,6 +714,8 @@ def getattr_(I, obj, name, default=MISSING):
     if isinstance(obj, (int, float)):
         if name == "__class__":
             return I.world.builtins[type(obj).__name__]
+        if hasattr(type(obj), name) and default is MISSING:
+            raise OutOfReach("%s.%s is not modelled" % (type(obj).__name__, name))
         return missing()
     return missing()
 
